@@ -866,7 +866,7 @@ func (c *Ctx) concreteTypesByTag() map[int64][]types.Type {
 
 func init() {
 	register("C04", &propDef{
-		explain: "Static rules on the purity-detection and cache mechanism: the single cache write is confined (SSA dominance) to the edges 'miss counter unchanged across the body evaluation' and 'result is not an ERROR', stores the evaluated result under the lookup's key with the captured output buffer; every uncacheability source (info, stored and new references to non-constant non-function outer bindings, del, DontCache extensions, callee cantCache) reaches the miss counter and no additional condition can skip it; an effect analysis over the reconstructed extension registry requires DontCache for every callback that touches the OS, clock, random sources, run-time package state or ClientData; Hashable is checked against Go map-key semantics (all components checked recursively); cached output is replayed on a hit. Decides the mechanism for all programs; does not decide that the purity exemption for upper-case and function-valued captures, or the text-based key, are sound (known unsound, value-level design).",
+		explain: "Static rules on the purity-detection and cache mechanism: the single cache write is confined (SSA dominance) to the edges 'miss counter unchanged across the body evaluation' and 'result is not an ERROR', stores the evaluated result under the lookup's key with the captured output buffer; every uncacheability source (info, stored and new references to non-constant non-function outer bindings, del, DontCache extensions, callee cantCache) reaches the miss counter and no additional condition can skip it; an effect analysis over the reconstructed extension registry requires DontCache for every callback that touches the OS, clock, random sources, run-time package state or ClientData; Hashable is checked against Go map-key semantics (all components checked recursively); cached output is replayed on a hit. Decides the mechanism for all programs; does not decide that the purity exemption for upper-case and function-valued captures, or the text-based key, are sound (known unsound, value-level design). Also: every return of applyFunction after the body evaluation tests the callee cantCache flag (or lies on the counter-unchanged edge), cantCache/getMiss have single disciplined writers, and Hashable never accepts references.",
 		assume:  []string{"calls through function values inside callbacks are not followed for effects", "the purity exemption (constants, function values) is taken as designed: staleness through redefinition or upper-case captures is not covered"},
 		run:     runC04,
 	})
